@@ -16,6 +16,7 @@ import (
 	"os"
 	"path/filepath"
 	"sort"
+	"strconv"
 	"strings"
 	"sync"
 	"time"
@@ -61,6 +62,9 @@ func run(r *lib.Run) {
 	r.Assume("a 'hang' or 'wedge' is decided by persistent state (handler goroutine still parked / /status not answering after a generous deadline and two goroutine dumps), never by latency")
 	r.Assume("open-descriptor oracle: descriptors pointing into the cache directory at quiescence are violations; other descriptor growth needs the N vs 2N re-run test")
 	total := r.N(1500, 40000)
+	if v, err := strconv.Atoi(os.Getenv("C14_N")); err == nil && v > 0 { // developer aid
+		total = v
+	}
 	ps := plans()
 	if only := os.Getenv("C14_ONLY"); only != "" { // developer aid: restrict to some fixtures
 		var keep []plan
@@ -146,6 +150,7 @@ type fixture struct {
 	fdSeries     []map[string]any
 	finalSigs    map[string]int
 	lastOp       *op
+	keepJournal  bool
 }
 
 func runFixture(r *lib.Run, p plan, n int) {
@@ -160,11 +165,10 @@ func runFixture(r *lib.Run, p plan, n int) {
 		return
 	}
 	fx.journal = jf
-	violBefore := r.Violations()
 	defer func() {
 		_ = jf.Close()
 		fx.stopAll()
-		if r.Violations() == violBefore && r.Counter("known."+p.name) == 0 {
+		if !fx.keepJournal {
 			_ = os.Remove(fx.journalPath) // only journals that witness something are kept
 		}
 	}()
@@ -359,7 +363,7 @@ func (fx *fixture) detail(extra map[string]any) map[string]any {
 }
 
 func (fx *fixture) violation(key, what string, extra map[string]any) {
-	fx.r.Count("known." + fx.p.name) // keeps the journal
+	fx.keepJournal = true
 	fx.r.Violation(key, what, fx.detail(extra))
 }
 
@@ -398,8 +402,14 @@ func (fx *fixture) exec(o *op) result {
 	fx.journalWrite(o)
 	fx.lastOp = o
 	ctx, cancel := context.WithTimeout(context.Background(), opTimeout)
+	t0 := time.Now()
 	res := o.run(ctx, fx)
 	cancel()
+	fx.r.CountN("ms.run."+groupOf(o.gen), time.Since(t0).Milliseconds())
+	if d := time.Since(t0); d > 700*time.Millisecond && os.Getenv("C14_DEBUG") != "" {
+		fmt.Fprintf(os.Stderr, "SLOW %s %s %s %v -> %s %s\n", fx.p.name, o.ep, o.gen, d, res.status, res.note)
+	}
+	defer func(t time.Time) { fx.r.CountN("ms.judge."+groupOf(o.gen), time.Since(t).Milliseconds()) }(time.Now())
 	if o.setup {
 		fx.r.Count("setup." + o.gen)
 	} else {
